@@ -33,6 +33,8 @@ def run(prog: Program, rep: Report, tier: str) -> None:
     rep.rule("R17.3", "flag discipline: _is_running is stored only in __init__ (False), start (True, after the whole port loop, never on a raising exit) and stop (False, after the closing loop); is_running returns it", 5)
     rep.rule("R17.4", "acquire/rollback pairing: when binding a later port raises, every transport acquired earlier in this start() is closed (or stop() runs) before the exception leaves, and the flag does not end up True", 1)
     rep.rule("R17.6", "exclusive bind: no endpoint is created with reuse_port / reuse_address (or an already bound socket), so binding a port that is in use - including by this very bridge on a repeated start - fails instead of orphaning the registered transport", 1)
+    rep.rule("R17.7", "restart: start() on an instance whose _transports holds whatever an earlier start/stop cycle left (stop closes the transports but keeps the entries) still creates and registers an endpoint "
+                      "for every configured port on each returning path - what is already registered never makes start skip a port, or the bridge would report running while listening on fewer ports", 1)
     rep.rule("R17.5", "context manager pairs: __aenter__ awaits start and returns self; __aexit__ awaits stop unconditionally and returns a falsy value", 2)
     rep.explanation = (
         "Decides structural necessary conditions on every path of start/stop/__aenter__/__aexit__ (port loop unrolled 0,1,2 times with symbolic ports): registration of each endpoint, "
@@ -70,6 +72,27 @@ def run(prog: Program, rep: Report, tier: str) -> None:
             if not ce.awaited:
                 bad1 = f"iteration {i}: create_datagram_endpoint is not awaited"
     rep.check(bad1 is None and len(rets) >= 3, "R17.1", "start registers every endpoint", where, bad1 or f"only {len(rets)} returning paths explored", key="R17.1|start")
+    # ---- R17.7: the same count on an instance with history (unknown content of _transports)
+    try:
+        I7, outs7, _fi7 = B.run_bridge_method(prog, "start", fresh_instance=False)
+        funcs |= set(I7.functions_visited)
+        bad7 = None
+        rets7 = [o for o in outs7 if o.kind == "return"]
+        for o in rets7:
+            k = iter_count(o)
+            cde = B.ev_calls(o, ".create_datagram_endpoint")
+            stores = [e for e in o.state.events if e.kind == "storeitem" and e.target == "self._transports"]
+            # a port may be skipped only when the path has established that its registered transport is still open
+            from ..interp import neg as _neg
+            pcs7 = _flat(o.state.pc)
+            live = [e for e in o.state.events if e.kind == "call" and e.target.endswith(".is_closing") and (_neg(("truthy", e.result)) in pcs7 or ("not", ("truthy", e.result)) in pcs7)]
+            if k is None or len(cde) + len(live) < min(k, 2) or len(cde) > min(k, 2) or len(stores) != len(cde):
+                looked = [e for e in o.state.events if e.kind == "call" and e.target.startswith("self._transports.")]
+                bad7 = (f"restart path with {k} port(s): {len(cde)} endpoints created, {len(stores)} registered"
+                        + (f" after consulting {looked[0].target}() - entries left by an earlier start/stop cycle make start skip the port while the flag is still set" if looked else ""))
+        rep.check(bad7 is None and len(rets7) >= 3, "R17.7", "restart binds every port", where, bad7 or f"only {len(rets7)} returning paths explored", key="R17.7|restart")
+    except AnalysisError as e7:
+        rep.undecided("R17.7", "restart binds every port", where, f"start() on an instance with history is not analysable: {e7}")
     bad6 = None
     n6 = 0
     for o in outs:
@@ -88,22 +111,17 @@ def run(prog: Program, rep: Report, tier: str) -> None:
         protos = []
         for ce in cde:
             fac = ce.args[0] if ce.args else None
-            if fac is None or fac[0] != "lambda":
-                bad_p = "protocol factory is not a lambda returning the protocol object"
+            prod = B.factory_product(I, o, fac)
+            if prod is None:
+                bad_p = f"what the protocol factory {T.show(fac)[:60] if fac else None} returns could not be established (it must produce a UdpClientProtocol per port)"
                 continue
-            body = fac[1].body
-            env = fac[4]
-            pv = env.get(body.id) if isinstance(body, ast.Name) else None
-            if pv is None or pv[0] != "obj":
-                bad_p = "protocol factory does not return a protocol object created in this iteration"
-                continue
-            ho = o.state.heap[pv[1]]
+            ho, oid_, fresh_ = prod
             od = ho.fields.get("_on_datagram")
-            okcb = (ho.cls is not None and ho.cls.name == "UdpClientProtocol" and isinstance(od, tuple) and od[0] == "partialobj"
-                    and od[1][0] == "func" and od[1][1].qualname == "_parse_device_from_datagram" and od[2] == (("sym", "on_device", "callable"),))
+            okcb = ho.cls is not None and ho.cls.name == "UdpClientProtocol" and B.handler_is_builder_bound_to_callback(od)
             if not okcb:
                 bad_p = f"protocol's datagram handler is {T.show(od)[:80]}, expected partial(_parse_device_from_datagram, self._on_device)"
-            protos.append(pv[1])
+            if not fresh_:
+                protos.append(oid_)
         if len(set(protos)) != len(protos):
             bad_p = "the same protocol object is shared by several ports"
     rep.check(bad_p is None, "R17.1", "one protocol per port bound to the user callback", where, bad_p or "", key="R17.1|protocol")
@@ -164,8 +182,20 @@ def run(prog: Program, rep: Report, tier: str) -> None:
             if should_close != (len(closes) == 1):
                 bad2 = f"iteration {i}: transport present={truthy}, not closing={notclosing}, but close() called {len(closes)} time(s)"
     rep.check(bad2 is None, "R17.2", "stop closes every registered, open transport of every configured port", swhere, bad2 or "", key="R17.2|stop")
-    same_ports = _iter_sources(sfi.node) == _iter_sources(fi.node) == {"self._broadcast_ports"}
-    rep.check(same_ports, "R17.2", "stop iterates the ports start bound", swhere, f"start iterates {_iter_sources(fi.node)}, stop iterates {_iter_sources(sfi.node)}", key="R17.2|ports")
+    # the collection whose length bounds the loops of start and of stop (from the interpreted paths, so helper
+    # generators, zip(...) and local aliases are seen through): both must be the configured ports
+    ports_sym = ("sym", "ports", ("list", ("int", 1, 65535), "distinct"))
+
+    def _roots(os_: List[Outcome]) -> Set[Any]:
+        return {g[1] for o_ in os_ for g in o_.state.pc if isinstance(g, tuple) and g and g[0] in ("itercount", "iterge")}
+
+    r_start, r_stop = _roots(outs), _roots(souts)
+    if r_start == r_stop == {ports_sym}:
+        rep.ok("R17.2", "stop iterates the ports start bound", swhere)
+    elif r_start and r_stop and all(isinstance(x, tuple) and x[:1] == ("sym",) for x in r_start | r_stop):
+        rep.bad("R17.2", "stop iterates the ports start bound", swhere, f"start iterates {[T.show(x)[:60] for x in r_start]}, stop iterates {[T.show(x)[:60] for x in r_stop]}; both must walk self._broadcast_ports", key="R17.2|ports")
+    else:
+        rep.undecided("R17.2", "stop iterates the ports start bound", swhere, f"the loops of start / stop are bounded by {[T.show(x)[:80] for x in r_start | r_stop]}, which this rule cannot relate to the configured ports")
     # ---- R17.3 flag discipline
     writers: Dict[str, List[Any]] = {}
     for m in prog.all_modules(True):
